@@ -305,8 +305,15 @@ class VTime(object):
     def __init__(self, world):
         self.world = world
 
+    TICK = 1e-6
+
     def time(self):
+        # real clocks never stand perfectly still: every reading moves virtual time forward by
+        # one microsecond, so that loops of the form `remaining = deadline - time.time();
+        # if remaining < 0: break; cond.wait(remaining)` terminate when they wake exactly at
+        # their deadline (with a frozen clock they would spin forever on wait(0))
         self.world.preempt()
+        self.world.now += self.TICK
         return self.world.now
 
     def monotonic(self):
